@@ -192,7 +192,14 @@ func init() {
 			}
 			sp := []*sup.Space{mk("two-rounds", 2, c13Contents)}
 			if c.Thorough() {
-				sp = append(sp, mk("three-rounds", 3, c13Contents))
+				// every second content: both fact-set halves, all four extras, both policy lists
+				var half []c13Content
+				for i, x := range c13Contents {
+					if (i/2)%2 == 0 || i%8 == 7 {
+						half = append(half, x)
+					}
+				}
+				sp = append(sp, mk(fmt.Sprintf("three-rounds-%d-contents", len(half)), 3, half))
 			} else {
 				var sub []c13Content
 				for i, x := range c13Contents {
